@@ -268,6 +268,44 @@ Proof.
     + exact I.
 Qed.
 
+Theorem decompress_if_needed7_total bs cap : bytes_ok bs = true -> (1400 <= cap)%nat ->
+  match decompress_if_needed7 decomp bs cap with Panic _ | OutOfFuel => False | _ => True end.
+Proof.
+  intros Hb Hcap. unfold decompress_if_needed7.
+  replace (Z.of_nat cap <? MAX_PACKETSIZE) with false by (symmetry; apply Z.ltb_ge; unfold MAX_PACKETSIZE; lia).
+  destruct (needs_decompression7 bs) eqn:En; [|exact I]. cbn [negb].
+  unfold needs_decompression7 in En.
+  destruct (Z.of_nat (length bs) >? MAX_PACKETSIZE) eqn:Elen; [discriminate|].
+  destruct (header_of7 bs) as [[[h ws] payload]|] eqn:Eh; [|discriminate].
+  apply andb_true_iff in En as [Fc Fz]. apply negb_true_iff in Fc.
+  destruct (decompress7_spec bs h ws payload cap Hb Eh Fc Fz Elen Hcap) as (hb & _ & E & _).
+  rewrite E. destruct (decomp payload (cap - 7)%nat); exact I.
+Qed.
+
+Theorem read_nodecomp7_spec bs : bytes_ok bs = true ->
+  match snd (read_nodecomp7 bs) with
+  | Panic s => s = site7_read_no_buffer /\ needs_decompression7 bs = true
+  | OutOfFuel => False
+  | _ => True
+  end.
+Proof.
+  intros Hb. unfold read_nodecomp7, read_impl7.
+  destruct (Z.of_nat (length bs) >? MAX_PACKETSIZE) eqn:Elen; [exact I|].
+  destruct (header_of7 bs) as [[[h ws] payload]|] eqn:Eh; [|exact I].
+  destruct (header_of7_ok bs h ws payload Hb Eh) as (Hr & Hl & Htl & Hpb & Htb).
+  destruct (land_ne0 (ph7_flags h) PACKETFLAG_CONNLESS) eqn:Fc.
+  - unfold read_connless7. destruct (PacketHeaderConnlessPacked7_of_bytes bs) as [[hcp cp]|]; [|exact I].
+    destruct (PacketHeaderConnlessPacked7_unpack_warn hcp) as [hc ws2].
+    destruct (negb (phc7_version hc =? CONNLESS_VERSION)); exact I.
+  - unfold payload_slice7. destruct (land_ne0 (ph7_flags h) PACKETFLAG_COMPRESSION) eqn:Fz.
+    + cbn [snd]. split; [reflexivity|]. unfold needs_decompression7. rewrite Elen, Eh, Fc, Fz. reflexivity.
+    + assert (Hs : slice_ok (length bs) None {| s_src := Input; s_off := Z.to_nat HEADER_SIZE; s_data := payload |}).
+      { unfold slice_ok, in_buf. cbn [s_src s_off s_data]. change (Z.to_nat HEADER_SIZE) with 7%nat. split; [lia|left; reflexivity]. }
+      pose proof (read_payload7_spec ws h (length bs) _ (length bs) None Hr Htl Htb Hs) as Hg.
+      unfold good_result7 in Hg.
+      destruct (snd (read_payload7 ws h (length bs) {| s_src := Input; s_off := Z.to_nat HEADER_SIZE; s_data := payload |})) as [[pk vs]|e|s|]; auto; contradiction.
+Qed.
+
 End Total.
 
 Section Rewrite.
